@@ -24,6 +24,8 @@ explore    : the REAL engine, in child processes (an abort / stack overflow / ha
                   a pool of ~80 values of every kind and boundary magnitude: arities 0..2 exhaustively, arity 3
                   pairwise (quick, and procedures of unknown arity) / exhaustively (thorough); the applying loop is a
                   top-level procedure or a procedure of a required module.
+   (iii) engines: a directed probe: engines are created, used for one small procedure and dropped a few hundred times
+                  in ONE process (an embedder that makes an engine per request), with the JIT and with STEEL_JIT=false.
 oracle     : a panic reaching catch_unwind, an abort, a signal, a native stack overflow, an evaluation that cannot be
              interrupted, a probe result other than the fixed expected one (unless the history rebinds a standard name), or
              frames / operands left on the stacks after an error.  Failures are grouped into classes (FINDING_CLASSES: one
@@ -1583,6 +1585,9 @@ def run(ctx):
     classes = Classes()
     known = load_known(ctx)
 
+    # (iii) one engine per request: runs beside the other phases
+    eng_threads, eng_res = engines_probe(ctx)
+
     # (i) texts
     t0 = time.time()
     items = gen_texts(ctx, stats)
@@ -1681,6 +1686,7 @@ def run(ctx):
     run_builtins(ctx, classes, stats)
     stats["builtins_wall_s"] = round(time.time() - t1, 1)
 
+    engines_verdict(ctx, classes, stats, eng_threads, eng_res)
     check_site_table(ctx, classes, stats)
     decide(ctx, classes, known, stats)
     if not pr["ok"]:
@@ -1721,6 +1727,13 @@ def replay(ctx, path):
                          os.path.join(SCRATCH, "sandbox", "replay"), env={"C07_SOFT_MS": "3000", "C07_HARD_MS": "9000"}, timeout=300)
         print("\n".join(read_records(out)))
         print("exit status", rc, death_signature(rc, tail) if rc else "")
+        return 0
+    if text.startswith(";;; directed probe `c07 engines"):
+        ths, res = engines_probe(ctx)
+        for t in ths:
+            t.join()
+        for label, d in res.items():
+            print(label, d)
         return 0
     if text.startswith(MODMARK):
         res = run_texts(ctx, [("mod:replay", text.split("\n", 1)[1].encode())], fresh_each=True, tag="r")
